@@ -207,3 +207,65 @@ fn c05_slot_key_survives_every_opcode() {
     }
     run_cases("c05_key_survives_opcode", cases);
 }
+
+/// storage keys hashed over memory that MIXES constant words (string-looking ones too) with non-constant words: the layout may
+/// name only constants that occur in the key expression — never the hash of a part of the hashed data
+#[test]
+fn c05_keys_hashed_over_mixed_memory() {
+    let ascii = |s: &str| { let mut b = [0u8; 32]; b[..s.len()].copy_from_slice(s.as_bytes()); U256::from_be_bytes(b) };
+    let consts = [U256::from(0x20u8), U256::from(5u8), U256::from(1u8), ascii("hello"), ascii("AAAAAAAAAAAAAAAAAAAAAAAAAAAAAAAA"), ascii("eip1967.proxy.admin"), U256::ONE << 255u32];
+    let nonconst: [(&str, Vec<u8>); 3] = [("caller", vec![0x33]), ("calldataload(0)", vec![0x60, 0x00, 0x35]), ("timestamp", vec![0x42])];
+    let mut cases = vec![];
+    let mut shapes: Vec<Vec<Option<U256>>> = vec![];
+    for c in consts { shapes.push(vec![None, Some(c)]); shapes.push(vec![Some(c), None]); }
+    for a in &consts[..5] { for b in &consts[..5] { shapes.push(vec![Some(*a), Some(*b), None]); shapes.push(vec![None, Some(*a), Some(*b)]); shapes.push(vec![Some(*a), None, Some(*b)]); } }
+    for (i, shape) in shapes.iter().enumerate() {
+        let (nname, ncode) = &nonconst[i % 3];
+        let mut c = vec![];
+        for (j, w) in shape.iter().enumerate() {
+            match w { Some(k) => p32(&mut c, *k), None => c.extend(ncode) }
+            mstore(&mut c, (32 * j) as u8);
+        }
+        sha3(&mut c, 0, (32 * shape.len()) as u8);
+        let what: Vec<String> = shape.iter().map(|w| w.map_or(nname.to_string(), |k| format!("{k:#x}"))).collect();
+        let allowed: BTreeSet<U256> = shape.iter().flatten().copied().collect();
+        let mut store = c.clone(); store.insert(0, 0x33); store.extend([0x55, 0x00]);
+        cases.push(Case { ob: "slots.only_accessed_slots.hash_of_partial_data", what: format!("sstore(keccak({}), caller)", what.join(" ++ ")), code: store, allowed: allowed.clone(), in_value: BTreeSet::new() });
+        let mut load = c.clone(); load.extend([0x54, 0x50, 0x00]);
+        cases.push(Case { ob: "slots.only_accessed_slots.hash_of_partial_data", what: format!("sload(keccak({}))", what.join(" ++ ")), code: load, allowed, in_value: BTreeSet::new() });
+    }
+    run_cases("c05_mixed_memory_keys", cases);
+}
+
+/// a constant in memory that the program OVERWRITES before hashing (whole, or exactly its non-zero bytes, by a copy of
+/// 1..33 bytes, an MSTORE or MSTORE8) is no longer part of the hashed data: a key hashed over that memory must not turn
+/// the stale constant into a slot
+#[test]
+fn c05_overwritten_constants_are_not_slots() {
+    let mut cases = vec![];
+    for nbytes in [1usize, 2, 4, 8, 20, 31] {
+        // left-aligned constant with `nbytes` non-zero leading bytes
+        let mut k = [0u8; 32];
+        for (i, b) in k.iter_mut().take(nbytes).enumerate() { *b = 0xa9u8.wrapping_add(7 * i as u8) | 1; }
+        let kw = U256::from_be_bytes(k);
+        for (oname, over) in [
+            ("calldatacopy of its non-zero bytes", vec![0x60, nbytes as u8, 0x60, 0x00, 0x60, 0x20, 0x37]),
+            ("calldatacopy of a word and a byte ending on it", vec![0x60, (32 + nbytes) as u8, 0x60, 0x04, 0x60, 0x00, 0x37]),
+            ("calldatacopy of the whole word", vec![0x60, 0x20, 0x60, 0x00, 0x60, 0x20, 0x37]),
+            ("codecopy of its non-zero bytes", vec![0x60, nbytes as u8, 0x60, 0x00, 0x60, 0x20, 0x39]),
+            ("returndatacopy of its non-zero bytes", vec![0x60, nbytes as u8, 0x60, 0x00, 0x60, 0x20, 0x3e]),
+            ("mstore of caller over it", vec![0x33, 0x60, 0x20, 0x52]),
+        ] {
+            let mut c = vec![];
+            p32(&mut c, kw); mstore(&mut c, 0x20);
+            c.extend(&over);
+            c.push(0x33); mstore(&mut c, 0);
+            sha3(&mut c, 0, 0x40);
+            let mut load = c.clone(); load.extend([0x54, 0x50, 0x00]);
+            cases.push(Case { ob: "slots.only_accessed_slots.stale_memory_constant", what: format!("mem[0x20] = {kw:#x}; {oname}; sload(keccak(mem[0..0x40]))"), code: load, allowed: BTreeSet::new(), in_value: BTreeSet::new() });
+            let mut store = vec![0x60, 0x01]; store.extend(&c); store.extend([0x55, 0x00]);
+            cases.push(Case { ob: "slots.only_accessed_slots.stale_memory_constant", what: format!("mem[0x20] = {kw:#x}; {oname}; sstore(keccak(mem[0..0x40]), 1)"), code: store, allowed: BTreeSet::new(), in_value: BTreeSet::new() });
+        }
+    }
+    run_cases("c05_overwritten_constants", cases);
+}
